@@ -216,6 +216,7 @@ pub fn child(args: &Args) -> ! {
         }
     };
     let mut cx = Ctx {
+        marks: Vec::new(),
         plan: FaultPlan::default(),
         store: &store,
         mon: &mon,
@@ -235,7 +236,9 @@ pub fn child(args: &Args) -> ! {
     };
     for s in &phase_a {
         cx.step(s, false);
+        cx.marks.push((mon.len(), cx.snapshots.len() - 1, cx.last_ack_snapshot));
     }
+    let phase_b_from = mon.len();
     let calls_before = mon.calls();
     // plan indices are relative to the first I/O call of phase B
     let mut plan = plan_from_json(&plan_json);
@@ -260,7 +263,38 @@ pub fn child(args: &Args) -> ! {
     out["uses_uring"] = json!(store.verif_uses_uring());
     for s in &phase_b {
         cx.step(s, true);
+        cx.marks.push((mon.len(), cx.snapshots.len() - 1, cx.last_ack_snapshot));
         cx.check_reads();
+    }
+    // crash images of the faulted trace itself: a crash may come at any moment of a run in which writes or fsyncs
+    // fail - e.g. while a failed batch is being scrubbed. A sample of cuts (lost / torn in-flight writes as in the
+    // crash engine) is judged like the images taken at the flush attempts: reopenable, nothing older than the last
+    // acknowledgement before the cut, nothing that was never written
+    if !mon.consumed().is_empty() {
+        let events = mon.events();
+        let mut rng = Rng::derive(wid, events.len() as u64, plan_json.to_string().len() as u64);
+        let n = events.len();
+        let mut made = 0;
+        for _ in 0..24 {
+            if made >= 8 || n <= phase_b_from {
+                break;
+            }
+            let c = phase_b_from + rng.usize_below(n - phase_b_from + 1);
+            let recipes = crashimg::recipes_for_cut(&events, c, &mut rng, 2, 1);
+            let Some(r) = (if recipes.is_empty() { None } else { Some(recipes[rng.usize_below(recipes.len())].clone()) }) else { continue };
+            if r.keep.is_empty() && r.tear.is_none() && rng.chance(2, 3) {
+                continue; // plain durable prefixes are what the flush-point images already cover
+            }
+            let lo = cx.marks.iter().rev().find(|m| m.0 <= c).map(|m| m.2).unwrap_or(0);
+            let hi = cx.marks.iter().find(|m| m.0 >= c).map(|m| m.1).unwrap_or(cx.snapshots.len() - 1);
+            let image = crashimg::build(&base, &events, &r);
+            cx.img_n += 1;
+            let p = format!("{}/{}.{}.crash.img", dir, tag, cx.img_n);
+            std::fs::write(&p, image).unwrap();
+            cx.images.push(json!({"path": p, "kind": "crash-image-of-the-faulted-trace", "lo": lo.min(hi), "hi": hi, "faulted": true, "recipe": crashimg::describe(&events, &r)}));
+            made += 1;
+        }
+        out["crash_images_of_faulted_trace"] = json!(made);
     }
     let Ctx { state, values_by, mut snapshots, mut problems, mut images, flushes, mut last_ack_snapshot, mut indeterminate, .. } = cx;
     let consumed = mon.consumed();
@@ -342,6 +376,8 @@ pub fn child(args: &Args) -> ! {
 
 
 struct Ctx<'a> {
+    /// (device events so far, snapshot index, last acknowledged snapshot) at the end of every step
+    marks: Vec<(usize, usize, usize)>,
     plan: FaultPlan,
     store: &'a feoxdb::FeoxStore,
     mon: &'a crate::mon::FileMon,
